@@ -1,5 +1,7 @@
 import CpModel.Proto
 import CpModel.Isolation
+import CpModel.IsolationCfg
+import CpModel.IsolationRelease
 import CpModel.Gen.C10Tables
 /-!
   Driver for C10 (request isolation).  One case per line, space-separated tokens, processed left to right:
@@ -14,6 +16,23 @@ import CpModel.Gen.C10Tables
 
   `<items>` = comma-separated naturals, `-` for none.  The construction table, default-object table and
   lifecycle facts are the generated ones (`CpModel.Gen.C10`).  Output: the observations joined by spaces.
+
+  Lines starting with `CFG` drive the config model (`CpModel.IsolationCfg`, merge table = `Gen.C10.cfgTable`):
+
+    I:<name>                       the name `index`
+    G:<k=v,…>                      cherrypy.config
+    P:<cell>:<k=v,…>  S:<cell>:<k=v,…>   contents of a `_cp_config` cell / a section cell
+    A:<app>:<node>                 application `app` is rooted at `node`
+    N:<app>:<node>:<cfg cell|->:<exposed 0|1>:<default node|->
+    E:<app>:<node>:<name>:<child>  getattr(node, name) is child
+    X:<app>:<name.name…|->:<cell>  the application's config has a section for that path (`-` = `/`)
+    Q:<app>:<name.name…|->         dispatch a request  ->  `q[k=v,…;own|shared]` (its effective config)
+    W:<k>=<v>                      the request dispatched last writes request.config[k] = v
+    H                              ->  `H[g:k=v,…;p<cell>:…;s<cell>:…]` all long-lived dicts
+
+  `LOC D:<a=v,…> L:<t>:<rq>:<rs> C:<t> S:<t>:<a>:<v> G:<t>:<a> N:<t>` drives the `_Serving(_local)` model
+  (`g=<v|none>` per G, `n=<attrs|->` per N); `REL <head|repaired|seeded> <pub> <close>` evaluates a transcribed
+  release program under a fault plan (`cleared=…;closed=…;raised=…`).
 -/
 open CpModel CpModel.Isolation
 
@@ -115,10 +134,171 @@ def feed (a : Acc) (tok : String) : Option Acc :=
   | ["K"] => pure { a with out := observeClass a :: a.out }
   | _ => none
 
-def step (line : String) : String :=
-  match (Proto.fields line).foldlM feed ({} : Acc) with
+def stepIso (toks : List String) : String :=
+  match toks.foldlM feed ({} : Acc) with
   | none => "bad-op"
   | some a => if a.out.isEmpty then "-" else " ".intercalate a.out.reverse
+
+/-! ### config model -/
+structure CAcc where
+  index : Nat := 0
+  cells : List IsolationCfg.Cell := []
+  roots : List (Nat × Nat) := []
+  infos : List ((Nat × Nat) × IsolationCfg.NodeInfo) := []
+  edges : List ((Nat × Nat × Nat) × Nat) := []
+  sects : List ((Nat × List Nat) × Nat) := []
+  keys : List Nat := []
+  cur : Option (IsolationCfg.Heap × IsolationCfg.Ref) := none
+  h : IsolationCfg.Heap := fun _ => IsolationCfg.Dict.empty
+  out : List String := []
+
+namespace Cfg
+open CpModel.IsolationCfg
+
+def parseKV (s : String) : Option (List (Nat × Nat)) :=
+  if s == "-" then some [] else
+  (s.splitOn ",").mapM fun kv =>
+    match kv.splitOn "=" with
+    | [k, v] => do pure ((← k.toNat?), (← v.toNat?))
+    | _ => none
+
+def parseNames (s : String) : Option (List Nat) :=
+  if s == "-" then some [] else (s.splitOn ".").mapM (·.toNat?)
+
+def parseOpt (s : String) : Option (Option Nat) :=
+  if s == "-" then some none else s.toNat?.map some
+
+def addCell (a : CAcc) (c : Cell) (kvs : List (Nat × Nat)) : CAcc :=
+  { a with cells := c :: a.cells, h := hset a.h c (Dict.ofList kvs.reverse) }
+
+def siteOf (a : CAcc) (app : Nat) : Site where
+  root := ((a.roots.find? fun e => e.1 = app).map (·.2)).getD 0
+  index := a.index
+  info := fun n => ((a.infos.find? fun e => e.1 = (app, n)).map (·.2)).getD ⟨none, false, none⟩
+  child := fun n name => (a.edges.find? fun e => e.1 = (app, n, name)).map (·.2)
+  sect := fun p => (a.sects.find? fun e => e.1 = (app, p)).map (·.2)
+
+def showDict (keys : List Nat) (d : Dict) : String :=
+  let parts := keys.filterMap fun k => (d k).map fun v => s!"{k}={v}"
+  if parts.isEmpty then "-" else ",".intercalate parts
+
+def insertSorted (k : Nat) : List Nat → List Nat
+  | [] => [k]
+  | x :: xs => if k < x then k :: x :: xs else if k = x then x :: xs else x :: insertSorted k xs
+
+def addKeys (a : CAcc) (kvs : List (Nat × Nat)) : CAcc :=
+  { a with keys := kvs.foldl (fun ks kv => insertSorted kv.1 ks) a.keys }
+
+def showCell : Cell → String
+  | .glob => "g"
+  | .cp i => s!"p{i}"
+  | .sect i => s!"s{i}"
+
+def feed (a : CAcc) (tok : String) : Option CAcc :=
+  match tok.splitOn ":" with
+  | ["I", n] => do pure { a with index := (← n.toNat?) }
+  | ["G", kv] => do
+    let kvs ← parseKV kv
+    pure (addCell (addKeys a kvs) .glob kvs)
+  | ["P", c, kv] => do
+    let kvs ← parseKV kv
+    pure (addCell (addKeys a kvs) (.cp (← c.toNat?)) kvs)
+  | ["S", c, kv] => do
+    let kvs ← parseKV kv
+    pure (addCell (addKeys a kvs) (.sect (← c.toNat?)) kvs)
+  | ["A", app, n] => do pure { a with roots := ((← app.toNat?), (← n.toNat?)) :: a.roots }
+  | ["N", app, n, cfg, ex, d] => do
+    let info : NodeInfo := { cfg := (← parseOpt cfg), exposed := ex == "1", dflt := (← parseOpt d) }
+    pure { a with infos := (((← app.toNat?), (← n.toNat?)), info) :: a.infos }
+  | ["E", app, n, name, c] => do
+    pure { a with edges := (((← app.toNat?), (← n.toNat?), (← name.toNat?)), (← c.toNat?)) :: a.edges }
+  | ["X", app, names, c] => do
+    pure { a with sects := (((← app.toNat?), (← parseNames names)), (← c.toNat?)) :: a.sects }
+  | ["Q", app, names] => do
+    let site := siteOf a (← app.toNat?)
+    let r := serve Gen.C10.cfgTable site a.h (← parseNames names)
+    let o := "q[" ++ showDict a.keys (r.2.get r.1) ++ ";" ++ (if r.2.isOwn then "own" else "shared") ++ "]"
+    pure { a with cur := some r, h := r.1, out := o :: a.out }
+  | ["W", kv] => do
+    let kvs ← parseKV kv
+    match a.cur with
+    | some (h, r) =>
+      let w := cfgWrites h r kvs
+      pure { addKeys a kvs with cur := some w, h := w.1 }
+    | none => pure a
+  | ["H"] =>
+    let parts := a.cells.reverse.map fun c => showCell c ++ ":" ++ showDict a.keys (a.h c)
+    pure { a with out := ("H[" ++ ";".intercalate parts ++ "]") :: a.out }
+  | _ => none
+
+def step (toks : List String) : String :=
+  match toks.foldlM feed ({} : CAcc) with
+  | none => "bad-op"
+  | some a => if a.out.isEmpty then "-" else " ".intercalate a.out.reverse
+
+end Cfg
+
+/-! ### thread-local container, release programs -/
+namespace Loc
+open CpModel.IsolationRelease
+
+structure LAcc where
+  s : LServing := { dict := fun _ => [], dflt := fun _ => none }
+  out : List String := []
+
+def insertSorted (k : Nat) : List Nat → List Nat
+  | [] => [k]
+  | x :: xs => if k ≤ x then k :: x :: xs else x :: insertSorted k xs
+
+def feed (a : LAcc) (tok : String) : Option LAcc :=
+  match tok.splitOn ":" with
+  | ["D", kv] => do
+    let kvs ← Cfg.parseKV kv
+    pure { a with s := { a.s with dflt := fun x => (kvs.find? fun e => e.1 = x).map (·.2) } }
+  | ["L", t, rq, rs] => do pure { a with s := a.s.load (← t.toNat?) (← rq.toNat?) (← rs.toNat?) }
+  | ["C", t] => do pure { a with s := a.s.clear (← t.toNat?) }
+  | ["S", t, x, v] => do pure { a with s := a.s.setattr (← t.toNat?) (← x.toNat?) (← v.toNat?) }
+  | ["G", t, x] => do
+    let o := match a.s.getattr (← t.toNat?) (← x.toNat?) with
+      | some v => s!"g={v}"
+      | none => "g=none"
+    pure { a with out := o :: a.out }
+  | ["N", t] => do
+    let ns := (a.s.names (← t.toNat?)).foldl (fun acc k => insertSorted k acc) []
+    pure { a with out := ("n=" ++ showItems ns) :: a.out }
+  | _ => none
+
+def step (toks : List String) : String :=
+  match toks.foldlM feed ({} : LAcc) with
+  | none => "bad-op"
+  | some a => if a.out.isEmpty then "-" else " ".intercalate a.out.reverse
+
+def parseOut (s : String) : Option Out :=
+  if s == "ok" then some .ok else if s == "exc" then some .exc else if s == "base" then some .base else none
+
+def showOut : Out → String
+  | .ok => "ok" | .exc => "exc" | .base => "base"
+
+def rel (toks : List String) : String :=
+  match toks with
+  | [prog, a, b] =>
+    let pr := if prog == "head" then some headProg else if prog == "repaired" then some repairedProg
+              else if prog == "seeded" then some seededProg else none
+    match pr, parseOut a, parseOut b with
+    | some pr, some a, some b =>
+      let o := behaviour pr ⟨a, b⟩
+      s!"cleared={if o.cleared then 1 else 0};closed={if o.closed then 1 else 0};raised={showOut o.raised}"
+    | _, _, _ => "bad-op"
+  | _ => "bad-op"
+
+end Loc
+
+def step (line : String) : String :=
+  match Proto.fields line with
+  | "CFG" :: toks => Cfg.step toks
+  | "LOC" :: toks => Loc.step toks
+  | "REL" :: toks => Loc.rel toks
+  | toks => stepIso toks
 
 end Drv.C10
 
